@@ -62,10 +62,25 @@ fn translate_relation(relation: SqlRelation, ctx: &mut Context) -> Result<sql_as
 fn translate_pipeline(pipeline: Vec<Transform>, ctx: &mut Context) -> Result<sql_ast::Query> {
     use SqlTransform::*;
 
+    // verification hook: the kinds of the whole atomic pipeline (before it is broken up at the first set operation)
+    #[cfg(prqlc_verif)]
+    log::debug!(
+        "verif:pipeline_in {}",
+        serde_json::json!({"kinds": pipeline.iter().map(|t| t.as_ref().to_string()).collect::<Vec<_>>()})
+    );
+
     let (select, set_ops) =
         pipeline.break_up(|t| matches!(t, Union { .. } | Except { .. } | Intersect { .. }));
 
     let select = translate_select_pipeline(select, ctx)?;
+
+    // verification hook: the clause structure of the query translate_select_pipeline returned
+    #[cfg(prqlc_verif)]
+    log::debug!(
+        "verif:select_pipeline_out {}",
+        serde_json::json!({"query": verif::query(&select),
+            "set_ops": set_ops.iter().map(|t| t.as_ref().to_string()).collect::<Vec<_>>()})
+    );
 
     translate_set_ops_pipeline(select, set_ops, ctx)
 }
@@ -74,6 +89,17 @@ fn translate_select_pipeline(
     mut pipeline: Vec<Transform>,
     ctx: &mut Context,
 ) -> Result<sql_ast::Query> {
+    // verification hook: the atomic pipeline this call assembles into one SELECT, and what it reads of the dialect
+    #[cfg(prqlc_verif)]
+    let verif_in = pipeline.clone();
+    #[cfg(prqlc_verif)]
+    log::debug!(
+        "verif:select_pipeline_in {}",
+        serde_json::json!({"dialect": format!("{:?}", ctx.dialect_enum), "use_fetch": ctx.dialect.use_fetch(),
+            "limit_for_bare_offset": ctx.dialect.limit_for_bare_offset(),
+            "depth": ctx.query_stack.len(), "pipeline": verif::pipeline(&verif_in, ctx)})
+    );
+
     let table_count = count_tables(&pipeline);
     log::debug!("atomic query contains {table_count} tables");
     ctx.push_query();
@@ -254,6 +280,14 @@ fn translate_select_pipeline(
             });
         }
     }
+
+    // verification hook: the select list the ORDER BY fallback looks at, and the ORDER BY keys every Sort of
+    // the pipeline translates to here (read-only: translate_column_sort leaves the context as it found it)
+    #[cfg(prqlc_verif)]
+    log::debug!(
+        "verif:select_pipeline_mid {}",
+        serde_json::json!({"projection": verif::projection(&projection), "sorts": verif::sorts_sql(&verif_in, ctx)})
+    );
 
     ctx.pop_query();
 
@@ -618,6 +652,12 @@ pub(super) fn translate_query_operator(
 }
 
 fn filter_of_conditions(exprs: Vec<Expr>, context: &mut Context) -> Result<Option<sql_ast::Expr>> {
+    // verification hook: the conditions this clause is built from, in order, and their conjunction
+    #[cfg(prqlc_verif)]
+    log::debug!(
+        "verif:filter_of_conditions {}",
+        serde_json::json!({"exprs": exprs, "all": all(exprs.clone())})
+    );
     Ok(if let Some(cond) = all(exprs) {
         Some(translate_expr(cond, context)?.into_ast())
     } else {
@@ -764,6 +804,171 @@ fn first_expr_from_projection(projection: &[SelectItem]) -> Option<sql_ast::Expr
         }
     }
     None
+}
+
+/// Verification hooks (never compiled in normal builds): read-only JSON views of what
+/// translate_select_pipeline reads and of the clause structure of the query it builds.
+#[cfg(prqlc_verif)]
+mod verif {
+    use serde_json::{json, Value};
+
+    use super::*;
+    use crate::sql::pq::ast::RelationExprKind;
+
+    fn cids(v: &[CId]) -> Vec<usize> {
+        v.iter().map(|c| c.get()).collect()
+    }
+
+    /// a take bound: null (open), an integer, or "non-int"
+    fn bound(b: &Option<Expr>) -> Value {
+        match b {
+            None => Value::Null,
+            Some(e) => match e.kind.as_literal().and_then(|l| l.as_integer()) {
+                Some(i) => json!(i),
+                None => json!("non-int"),
+            },
+        }
+    }
+
+    /// what a From / Join refers to: the instance's alias and, for a table reference, the declared name
+    fn relation(r: &RelationExpr, ctx: &Context) -> Value {
+        let alias = ctx
+            .anchor
+            .relation_instances
+            .get(&r.riid)
+            .and_then(|ri| ri.table_ref.name.clone());
+        match &r.kind {
+            RelationExprKind::Ref(tid) => json!({"riid": format!("{:?}", r.riid), "alias": alias,
+                "table": ctx.anchor.lookup_table_decl(tid).and_then(|d| d.name.clone()).map(|n| n.name)}),
+            RelationExprKind::SubQuery(_) => json!({"riid": format!("{:?}", r.riid), "alias": alias, "subquery": true}),
+        }
+    }
+
+    pub fn pipeline(p: &[Transform], ctx: &Context) -> Vec<Value> {
+        p.iter()
+            .map(|t| match t {
+                SqlTransform::From(r) => json!({"kind": "From", "rel": relation(r, ctx)}),
+                SqlTransform::Join { side, with, filter } => json!({"kind": "Join", "rel": relation(with, ctx),
+                    "side": format!("{side:?}"), "filter": filter}),
+                SqlTransform::Select(c) => json!({"kind": "Select", "cids": cids(c)}),
+                SqlTransform::Filter(e) => json!({"kind": "Filter", "expr": e}),
+                SqlTransform::Aggregate { partition, compute } => json!({"kind": "Aggregate",
+                    "partition": cids(partition), "compute": cids(compute)}),
+                SqlTransform::Sort(s) => json!({"kind": "Sort",
+                    "keys": s.iter().map(|k| (k.column.get(), format!("{:?}", k.direction))).collect::<Vec<_>>()}),
+                SqlTransform::Take(t) => json!({"kind": "Take", "start": bound(&t.range.start), "end": bound(&t.range.end),
+                    "partition": cids(&t.partition), "sort": t.sort.iter().map(|k| k.column.get()).collect::<Vec<_>>()}),
+                SqlTransform::DistinctOn(c) => json!({"kind": "DistinctOn", "cids": cids(c)}),
+                other => json!({"kind": other.as_ref()}),
+            })
+            .collect()
+    }
+
+    /// The ORDER BY keys every Sort of the pipeline translates to (null where the translation fails).
+    /// The function itself translates only the last Sort: a panic or an error in the translation of another
+    /// one must not change its outcome, and the query options are put back as they were.
+    pub fn sorts_sql(p: &[Transform], ctx: &mut Context) -> Vec<Value> {
+        let mut res = Vec::new();
+        for t in p {
+            if let SqlTransform::Sort(s) = t {
+                let saved = ctx.query.clone();
+                let keys = std::panic::catch_unwind(std::panic::AssertUnwindSafe(|| {
+                    s.iter()
+                        .map(|k| translate_column_sort(k, ctx))
+                        .collect::<Result<Vec<_>>>()
+                }));
+                ctx.query = saved;
+                res.push(match keys {
+                    Ok(Ok(keys)) => json!(keys.iter().map(order_key).collect::<Vec<_>>()),
+                    _ => Value::Null,
+                });
+            }
+        }
+        res
+    }
+
+    fn order_key(k: &sql_ast::OrderByExpr) -> Value {
+        json!({"expr": k.expr.to_string(), "asc": k.options.asc, "nulls_first": k.options.nulls_first})
+    }
+
+    pub fn projection(p: &[SelectItem]) -> Vec<Value> {
+        p.iter()
+            .map(|i| match i {
+                SelectItem::UnnamedExpr(e) => json!({"unnamed": e.to_string()}),
+                SelectItem::ExprWithAlias { expr, alias } => json!({"aliased": expr.to_string(),
+                    "alias": sql_ast::Expr::Identifier(alias.clone()).to_string()}),
+                SelectItem::Wildcard(_) => json!("wildcard"),
+                SelectItem::QualifiedWildcard(_, _) => json!("qualified-wildcard"),
+            })
+            .collect()
+    }
+
+    fn factor(f: &TableFactor) -> Value {
+        match f {
+            TableFactor::Table { name, alias, .. } => json!({
+                "table": name.0.iter().map(|p| p.as_ident().map(|i| i.value.clone())).collect::<Vec<_>>(),
+                "alias": alias.as_ref().map(|a| a.name.value.clone())}),
+            TableFactor::Derived { alias, .. } => json!({"subquery": true, "alias": alias.as_ref().map(|a| a.name.value.clone())}),
+            _ => json!("other"),
+        }
+    }
+
+    fn join(j: &Join) -> Value {
+        let (side, on) = match &j.join_operator {
+            JoinOperator::Inner(JoinConstraint::On(e)) => ("Inner", Some(e.to_string())),
+            JoinOperator::LeftOuter(JoinConstraint::On(e)) => ("Left", Some(e.to_string())),
+            JoinOperator::RightOuter(JoinConstraint::On(e)) => ("Right", Some(e.to_string())),
+            JoinOperator::FullOuter(JoinConstraint::On(e)) => ("Full", Some(e.to_string())),
+            _ => ("other", None),
+        };
+        json!({"rel": factor(&j.relation), "side": side, "on": on})
+    }
+
+    /// the clause structure of a query whose body is one SELECT
+    pub fn query(q: &sql_ast::Query) -> Value {
+        let select = match q.body.as_ref() {
+            SetExpr::Select(s) => s,
+            _ => return json!("not-a-select"),
+        };
+        let (limit, offset, limit_by) = match &q.limit_clause {
+            None => (None, None, 0),
+            Some(sql_ast::LimitClause::LimitOffset { limit, offset, limit_by }) => (
+                limit.as_ref().map(|l| l.to_string()),
+                offset.as_ref().map(|o| json!({"value": o.value.to_string(), "rows": format!("{:?}", o.rows)})),
+                limit_by.len(),
+            ),
+            Some(_) => return json!("other-limit-clause"),
+        };
+        json!({
+            "with": q.with.is_some(),
+            "distinct": match &select.distinct {
+                None => Value::Null,
+                Some(sql_ast::Distinct::Distinct) => json!("Distinct"),
+                Some(sql_ast::Distinct::On(keys)) => json!({"On": keys.iter().map(|k| k.to_string()).collect::<Vec<_>>()}),
+            },
+            "projection": projection(&select.projection),
+            "from": select.from.iter().map(|f| json!({"rel": factor(&f.relation),
+                "joins": f.joins.iter().map(join).collect::<Vec<_>>()})).collect::<Vec<_>>(),
+            "where": select.selection.as_ref().map(|e| e.to_string()),
+            "group_by": match &select.group_by {
+                sql_ast::GroupByExpr::Expressions(es, mods) => json!({"exprs": es.iter().map(|e| e.to_string()).collect::<Vec<_>>(), "modifiers": mods.len()}),
+                _ => json!("other"),
+            },
+            "having": select.having.as_ref().map(|e| e.to_string()),
+            "order_by": match &q.order_by {
+                None => Value::Null,
+                Some(o) => match &o.kind {
+                    sqlparser::ast::OrderByKind::Expressions(keys) => json!(keys.iter().map(order_key).collect::<Vec<_>>()),
+                    _ => json!("other"),
+                },
+            },
+            "limit": limit,
+            "offset": offset,
+            "limit_by": limit_by,
+            "fetch": q.fetch.as_ref().map(|f| json!({"quantity": f.quantity.as_ref().map(|x| x.to_string()),
+                "with_ties": f.with_ties, "percent": f.percent})),
+        })
+    }
 }
 
 #[cfg(test)]
